@@ -85,6 +85,17 @@ def gen_repo_world(t, family):
         # text of a model is what was written - not a normalised form of it
         uni = "e\u0301" if w.unicode_names and i % 2 == 0 and i > 0 else ""
         paths.append(f"{ROOT}/{d}f{i}{uni}.{'n' if w.two_langs and i % 2 == 1 else 'm'}")
+    if family in SP and n >= 3 and t.chance(1, 2, "same-file-name-in-two-search-locations"):
+        # a twin: the same relative name exists next to some importer and on the search path (or on two search path
+        # entries) - the importer's directory wins, then the search path in its order, whatever is loaded already
+        i = 1 + t.draw(n - 1, "twin-of")
+        here = os.path.dirname(paths[i])
+        others = [d_ for d_ in (ROOT, ROOT + "/other", ROOT + "/sub") if d_ != here]
+        twin = t.pick(others, "twin-dir") + "/" + os.path.basename(paths[i])
+        if twin not in paths:
+            paths.append(twin)
+            n += 1
+            w.twin = (paths[i], twin)
     for p in paths:
         w.files[p] = FileEnt(p)
         SIMFS.files[p] = ""  # so that glob truth can be computed while generating
@@ -733,7 +744,7 @@ def run(ctx):
                 sysm.cache2[X] = m2
                 ctx.probe("file-cached-by-the-second-language")
                 continue
-        if fam in GR and not getattr(w, "gr_relative", False) and prop in ("C17", "C18") and t.chance(1, 4, "bulk-op"):
+        if fam in GR and not getattr(w, "gr_relative", False) and prop in ("C17", "C18") and t.chance(1, 2 if prop == "C18" else 4, "bulk-op"):
             ok = op_bulk(ctx, prop, sysm, w, cache, famtag, global_repo, t, wrap)
             if not ok:
                 return
